@@ -216,3 +216,235 @@ pub(crate) fn stub_remove_station(r: &mut TokenRing, address: crate::Address) {
     m.remove(address);
     *r = from_model(&m);
 }
+
+// ==========================================================================================
+// Model lemmas (pure reference model): what the station-level harnesses assume about a ring
+// ==========================================================================================
+
+/// set_next_station(a): a becomes the successor, the LAS state is untouched, the invariant holds.
+#[kani::proof]
+fn c02_model_set_next() {
+    let ts: u8 = kani::any();
+    kani::assume(ts <= 125);
+    let mut m = any_model(ts);
+    let before = m;
+    let a: u8 = kani::any();
+    kani::assume(a <= 125 && a != ts);
+    m.set_next(a);
+    assert!(m.ns == a, "C12/reply-evaluation: the station entered by set_next_station is the successor afterwards");
+    assert!(m.state == before.state, "C02/model: set_next_station does not touch the LAS state");
+    assert!((m.ns, m.ps) == Model::neighbours(m.las, ts) && m.las & !ADDR_MASK == 0, "C02/model: ring invariant preserved");
+    assert!(m.las == (before.las & !jumped_over(ts, a)) | (1 << a) | (1 << ts), "C02/pass-algebra: everything strictly between TS and the new successor leaves the LAS, both ends are in it");
+    kani::cover!(a < ts, "cover: successor below TS");
+}
+
+/// remove_station(a): a is not the successor afterwards, only a leaves the LAS.
+#[kani::proof]
+fn c02_model_remove() {
+    let ts: u8 = kani::any();
+    kani::assume(ts <= 125);
+    let mut m = any_model(ts);
+    let before = m;
+    let a: u8 = kani::any();
+    kani::assume(a <= 125 && a != ts);
+    m.remove(a);
+    assert!(m.ns != a, "C11/remove-silent: a removed station is not the successor afterwards");
+    assert!(m.las == before.las & !(1 << a), "C11/remove-silent: exactly the removed station leaves the LAS");
+    assert!(m.state == before.state, "C02/model: remove_station does not touch the LAS state");
+    assert!((m.ns, m.ps) == Model::neighbours(m.las, ts), "C02/model: ring invariant preserved");
+    kani::cover!(m.ns == ts, "cover: alone after removal");
+}
+
+/// Witnessing a pass: removes exactly the jumped-over addresses and enters the sender; invalid
+/// addresses are ignored; the own pass to the current successor changes neither NS nor PS.
+#[kani::proof]
+fn c02_model_witness() {
+    let ts: u8 = kani::any();
+    kani::assume(ts <= 125);
+    let mut m = any_model(ts);
+    let before = m;
+    let sa: u8 = kani::any();
+    let da: u8 = kani::any();
+    m.witness(sa, da);
+    if sa > 125 || da > 125 {
+        assert!(m == before, "C02/model: a pass with an invalid address is ignored");
+        return;
+    }
+    assert!((m.ns, m.ps) == Model::neighbours(m.las, ts) && m.las & !ADDR_MASK == 0, "C02/model: ring invariant preserved");
+    if before.state == MLas::Valid {
+        assert!(m.las == (before.las & !jumped_over(sa, da)) | (1 << sa), "C02/pass-algebra: a witnessed pass a->b removes exactly the addresses strictly between a and b and adds a");
+        assert!(m.state == MLas::Valid, "C02/stability: a valid LAS stays valid");
+        if sa == ts && da == before.ns {
+            assert!(m.ns == before.ns && m.ps == before.ps, "C02/stability: the own pass to the successor leaves successor and predecessor unchanged");
+        }
+        if before.las >> sa & 1 == 1 && before.las >> da & 1 == 1 && before.las & jumped_over(sa, da) == 0 {
+            assert!(m.las == before.las && m.ns == before.ns && m.ps == before.ps, "C02/stability: an in-order pass between neighbours of the LAS changes nothing");
+            kani::cover!(true, "cover: in-order pass in a valid ring");
+        }
+    }
+    kani::cover!(before.state == MLas::Verification && m.state == MLas::Valid, "cover: verification completes");
+    kani::cover!(before.state == MLas::Verification && m.state == MLas::Discovery, "cover: verification fails, rediscovery");
+}
+
+/// Three rotations of a stable ring of 2..=5 stations, heard from any starting point and any
+/// start state, give a valid LAS equal to the ring, with NS/PS the cyclic neighbours of TS.
+fn three_rotations<const K: usize>() {
+    // ring members, strictly ascending
+    let mut s = [0u8; K];
+    let n: usize = kani::any();
+    kani::assume(n >= 2 && n <= K);
+    let mut i = 0;
+    let mut ring: u128 = 0;
+    while i < K {
+        s[i] = kani::any();
+        kani::assume(s[i] <= 125);
+        if i > 0 && i < n {
+            kani::assume(s[i] > s[i - 1]);
+        }
+        if i < n {
+            ring |= 1 << s[i];
+        }
+        i += 1;
+    }
+    let ts: u8 = kani::any();
+    kani::assume(ts <= 125);
+    let mut m = any_model(ts);
+    // listening station: TS itself takes no part in the passes heard (it is either a member that
+    // is being passed over because it only listens - excluded here - or a non-member)
+    kani::assume(ring >> ts & 1 == 0);
+    let start: usize = kani::any();
+    kani::assume(start < n);
+    let mut k = 0;
+    while k < 3 * K {
+        if k < 3 * n {
+            let from = s[(start + k) % n];
+            let to = s[(start + k + 1) % n];
+            m.witness(from, to);
+        }
+        k += 1;
+    }
+    assert!(m.state == MLas::Valid, "C02/convergence: after three rotations the ring view is valid");
+    assert!(m.las & !(1 << ts) == ring, "C02/convergence: the LAS equals the set of stations in the ring");
+    let (ns, ps) = Model::neighbours(ring, ts);
+    assert!(m.ns == ns && m.ps == ps, "C02/convergence: successor and predecessor are the cyclic neighbours of TS in the ring");
+    kani::cover!(n == K, "cover: largest ring");
+    kani::cover!(ts > s[0] && ts < s[1], "cover: listener between two members");
+}
+
+#[kani::proof]
+#[kani::unwind(11)]
+fn c02_model_three_rotations_3() {
+    three_rotations::<3>();
+}
+
+#[kani::proof]
+#[kani::unwind(17)]
+fn c02_model_three_rotations_5_t() {
+    three_rotations::<5>();
+}
+
+// ==========================================================================================
+// L1: real bitvec code == model
+// ==========================================================================================
+
+fn same(r: &TokenRing, m: &Model) -> bool {
+    let x = to_model(r);
+    x.las == m.las && x.state == m.state && x.ns == m.ns && x.ps == m.ps && x.ts == m.ts
+}
+
+fn model_update_las(r: &mut TokenRing, sa: crate::Address, da: crate::Address) {
+    let mut m = to_model(r);
+    m.update_from_pass(sa, da);
+    *r = from_model(&m);
+}
+
+fn model_verify_las(r: &mut TokenRing, sa: crate::Address, da: crate::Address) -> bool {
+    to_model(r).verify_pass(sa, da)
+}
+
+fn model_update_next_previous(r: &mut TokenRing) {
+    let mut m = to_model(r);
+    let (ns, ps) = Model::neighbours(m.las, m.ts);
+    m.ns = ns;
+    m.ps = ps;
+    *r = from_model(&m);
+}
+
+/// Control flow of the four public mutators with the three bitvec leaves replaced by the model:
+/// real == model for ALL ring views and ALL addresses.
+#[kani::proof]
+#[kani::stub(TokenRing::update_las_from_token_pass, model_update_las)]
+#[kani::stub(TokenRing::verify_las_from_token_pass, model_verify_las)]
+#[kani::stub(TokenRing::update_next_previous, model_update_next_previous)]
+fn c02_l1_control_flow() {
+    let ts: u8 = kani::any();
+    kani::assume(ts <= 125);
+    let m0 = any_model(ts);
+    let mut r = from_model(&m0);
+    let mut m = m0;
+    let a: u8 = kani::any();
+    let b: u8 = kani::any();
+    match kani::any::<u8>() {
+        0 => {
+            r.witness_token_pass(a, b);
+            m.witness(a, b);
+        }
+        1 => {
+            kani::assume(a <= 125);
+            r.set_next_station(a);
+            m.set_next(a);
+        }
+        2 => {
+            kani::assume(a <= 125);
+            r.remove_station(a);
+            m.remove(a);
+        }
+        _ => {
+            r.claim_token();
+            m.claim();
+        }
+    }
+    assert!(same(&r, &m), "C02/l1: witness_token_pass / set_next_station / remove_station / claim_token agree with the reference model (leaves by model)");
+    assert!(r.ready_for_ring() == (m.state == MLas::Valid) && r.next_station() == m.ns && r.previous_station() == m.ps && r.this_station() == ts, "C02/l1: the observers report the model's values");
+    kani::cover!(m.state != m0.state, "cover: LAS state changes");
+}
+
+/// Leaf: verify_las_from_token_pass (bitvec range `any`) == model, LAS population bounded.
+fn any_sparse_las<const K: usize>() -> u128 {
+    let mut las: u128 = 0;
+    let mut i = 0;
+    while i < K {
+        let a: u8 = kani::any();
+        kani::assume(a <= 125);
+        if kani::any() {
+            las |= 1 << a;
+        }
+        i += 1;
+    }
+    las
+}
+
+#[kani::proof]
+#[kani::unwind(130)]
+fn c02_l1_update_las() {
+    let ts: u8 = kani::any();
+    kani::assume(ts <= 125);
+    let las: u128 = kani::any();
+    kani::assume(las & !ADDR_MASK == 0);
+    let m0 = Model { las, state: any_las_state(), ts, ns: ts, ps: ts };
+    let mut r = from_model(&m0);
+    let sa: u8 = kani::any();
+    let da: u8 = kani::any();
+    kani::assume(sa <= 125 && da <= 125);
+    // the bitvec part only: range fill + set (update_next_previous is the separate leaf)
+    if da > sa {
+        r.active_stations[usize::from(sa)..usize::from(da)].fill(false);
+    } else {
+        r.active_stations[usize::from(sa)..].fill(false);
+        r.active_stations[..usize::from(da)].fill(false);
+    }
+    r.active_stations.set(usize::from(sa), true);
+    let want = (las & !jumped_over(sa, da)) | (1 << sa);
+    assert!(las_of(&r) == want, "C02/l1: the bitvec range fill of update_las_from_token_pass equals the model's mask arithmetic");
+    kani::cover!(da <= sa, "cover: wrap-around pass");
+}
